@@ -16,6 +16,15 @@ def debug_fmt(v, facts, ty=None):
         return 'true' if v else 'false'
     if isinstance(v, int):
         return str(v)
+    if isinstance(v, float):
+        if v != v:
+            return 'NaN'
+        if v in (float('inf'), float('-inf')):
+            return 'inf' if v > 0 else '-inf'
+        r = repr(v)
+        if 'e' in r:
+            raise minirust.NoEval('cannot print %r the way Rust does' % (v,))
+        return r
     if isinstance(v, str):
         return '"%s"' % v.replace('\\', '\\\\').replace('"', '\\"')
     if v == minirust.NONE:
@@ -24,6 +33,8 @@ def debug_fmt(v, facts, ty=None):
         return 'Some(%s)' % debug_fmt(v[1], facts)
     if isinstance(v, tuple) and len(v) == 2 and v[0] == 'const':
         return str(v[1]).rsplit('::', 1)[-1]
+    if isinstance(v, tuple) and len(v) == 3 and v[0] == 'ctor':
+        return '%s(%s)' % (str(v[1]).rsplit('::', 1)[-1], ', '.join(debug_fmt(x, facts) for x in v[2]))
     if isinstance(v, tuple):
         return '(%s%s)' % (', '.join(debug_fmt(x, facts) for x in v), ',' if len(v) == 1 else '')
     if isinstance(v, list):
